@@ -118,6 +118,18 @@ def main():
             drop.add(idx)
         out_edits[idx] = body
         sys.stderr.write('prep_ir: stub %s -> %s\n' % (n, cname))
+    # std::string::_M_disjunct -> runtime primitive vf_str_disjunct (see ir2c.py prelude)
+    DISJ = '_ZNKSt7__cxx1112basic_stringIcSt11char_traitsIcESaIcEE11_M_disjunctEPKc'
+    if DISJ in defs:
+        idx = defs[DISJ]; f = ir2c.parse_func_header(ir2c.strip_meta(lines[idx][len('define '):].rstrip().rstrip('{')))
+        ptys = [tstr(pt) for pt, _ in f.params]
+        j = idx
+        while lines[j].strip() != '}': drop.add(j); j += 1
+        drop.add(j)
+        out_edits[idx] = ['define internal zeroext i1 @%s(%s %%a0, %s %%a1) noinline {' % (DISJ, ptys[0], ptys[1]),
+                          '  %%p0 = bitcast %s %%a0 to i8*' % ptys[0], '  %r = call zeroext i1 @vf_str_disjunct(i8* %p0, i8* %a1)', '  ret i1 %r', '}',
+                          'declare zeroext i1 @vf_str_disjunct(i8*, i8*)']
+        sys.stderr.write('prep_ir: builtin %s -> vf_str_disjunct\n' % DISJ)
     # vtable scrub: destructor entries and out-of-scope virtual functions are replaced by
     # vf_virtual_stub (asserts) or vf_virtual_noop, so that neither CBMC's function-pointer
     # resolution nor the native link drags in code the obligation never runs
